@@ -51,8 +51,34 @@ TPRClosed == /\ Ev.e = "prclosed" /\ pst' = [pst EXCEPT !.rclosed = TRUE] /\ UNC
 TPDone == /\ Ev.e = "pdone" /\ UNCHANGED <<psent, pgot, pst>> /\ KeepTrav
           /\ Ev.allsent                                                \* the writer was never blocked by the reader
           /\ Len(psent) = pst.n
+\* ---- segment filters and cycle detection (sequential helpers' building blocks)
+\*   iscycle{nodes, got}   PathSegment.IsCycle on the walk through nodes: the last node occurs earlier in the walk
+\*   paths{mode, n, edges, root, visited}   the segments (as edge id sequences) a breadth-first traversal from root expands when a
+\*        driver follows the edges and the real filter decides: "acyclic" = AcyclicNodeFilter, "unique" = UniquePathSegmentFilter
+NodesOf(edges, root, p) == <<root>> \o [i \in 1..Len(p) |-> edges[p[i]].t]
+IsWalk(edges, root, p) == /\ \A i \in 1..Len(p) : p[i] \in 1..Len(edges)
+                          /\ \A i \in 1..Len(p) : edges[p[i]].s = NodesOf(edges, root, p)[i]
+Simple(ns) == \A i, j \in 1..Len(ns) : i # j => ns[i] # ns[j]
+Prefix(p) == SubSeq(p, 1, Len(p) - 1)
+TIsCycle == /\ Ev.e = "iscycle" /\ KeepPipe /\ KeepTrav
+            /\ Ev.got = (\E i \in 1..(Len(Ev.nodes) - 1) : Ev.nodes[i] = Ev.nodes[Len(Ev.nodes)])
+TPaths == /\ Ev.e = "paths" /\ KeepPipe /\ KeepTrav /\ ~Ev.err
+          /\ LET V == {Ev.visited[i] : i \in 1..Len(Ev.visited)}
+                 Out(v) == {k \in 1..Len(Ev.edges) : Ev.edges[k].s = v}
+                 End(p) == NodesOf(Ev.edges, Ev.root, p)[Len(p) + 1] IN
+             /\ Cardinality(V) = Len(Ev.visited)                                        \* none twice
+             /\ <<>> \in V                                                               \* the root is expanded
+             /\ \A p \in V : IsWalk(Ev.edges, Ev.root, p) /\ Simple(NodesOf(Ev.edges, Ev.root, p))   \* only simple paths from the root
+             /\ \A p \in V : p # <<>> => Prefix(p) \in V                                \* a segment only after its trunk
+             /\ IF Ev.mode = "acyclic"
+                THEN \* every simple extension of an expanded segment is expanded
+                     \A p \in V : \A k \in Out(End(p)) : Simple(NodesOf(Ev.edges, Ev.root, Append(p, k))) => Append(p, k) \in V
+                ELSE \* unique: an edge ends at most one expanded segment, and an edge that could extend an expanded segment without
+                     \* closing a cycle ends some expanded segment
+                     /\ \A p, q \in V : (p # <<>> /\ q # <<>> /\ p[Len(p)] = q[Len(q)]) => p = q
+                     /\ \A p \in V : \A k \in Out(End(p)) : Simple(NodesOf(Ev.edges, Ev.root, Append(p, k))) => \E q \in V : q # <<>> /\ q[Len(q)] = k
 TNext == /\ l <= Len(TraceLog) /\ l' = l + 1
-         /\ (TPlan \/ TDStart \/ TDEnd \/ TCancel \/ TRet \/ TPipe \/ TPSend \/ TPRecv \/ TPClose \/ TPCancel \/ TPRClosed \/ TPDone)
+         /\ (TPlan \/ TDStart \/ TDEnd \/ TCancel \/ TRet \/ TPipe \/ TPSend \/ TPRecv \/ TPClose \/ TPCancel \/ TPRClosed \/ TPDone \/ TIsCycle \/ TPaths)
 TSpec == TInit /\ [][TNext]_tvars
 HW == TLCSet(1, IF l > TLCGet(1) THEN l ELSE TLCGet(1))
 Accepted == IF TLCGet(1) = Len(TraceLog) + 1 THEN TRUE ELSE PrintT(<<"STUCK_AT_LINE", TLCGet(1)>>) /\ FALSE
